@@ -23,6 +23,8 @@ type ClientOpts struct {
 	Faults           []vchan.Fault // installed on the client's end before NewClient
 	NoCallback       bool          // do not install OnCallback
 	NoNotify         bool          // do not install OnNotify
+	Spin             int
+	Validator        func([]byte) error
 }
 
 // ClientRig is a real jrpc2.Client on one end of a vchan pair and a raw
@@ -50,6 +52,12 @@ func NewClientRig(c *vt.Ctx, ctrl *sched.Controller, o ClientOpts) *ClientRig {
 	r.End.PipeLike = o.PipeLike
 	for _, f := range o.Faults {
 		r.End.AddFault(f)
+	}
+	if o.Spin > 0 {
+		r.End.Spin = o.Spin
+	}
+	if o.Validator != nil {
+		r.End.SetValidator(o.Validator)
 	}
 	opts := &jrpc2.ClientOptions{
 		OnCancel: func(cli *jrpc2.Client, rsp *jrpc2.Response) {
